@@ -2,7 +2,7 @@
 Driver for C16.  Request line:
   cfg=<share><leak><lexical> fuel=<n> P=<program in prefix notation, tokens separated by one space>
 program tokens:
-  lit <int> | dlit <int> | elit <int> | inst <integer|decimal|double|boolean> E | tt | ff | emp | var <n> | dot | add E E | sub E E | mul E E | gt E E | eq E E
+  lit <int> | dlit <int> | elit <int> | inst <integer|decimal|double|boolean> E | tt | ff | emp | var <n> | dot | pos | last | add E E | sub E E | mul E E | gt E E | eq E E
   | cat E E | ite E E E | for <x> E E | let <x> E E | fn <tok> <k> <p1>..<pk> E | named <builtin>
   | call E <k> A1..Ak   (A = `?` or E) | spart <builtin> <k> A1..Ak | par E | smap E E | forEach E E | filter E E
   | foldL E E E | foldR E E E | pairs E E E | sortK E E | apply E <k> E1..Ek
@@ -19,6 +19,7 @@ def parseBuiltin : String → Option Builtin
   | "abs" => some .abs | "count" => some .count | "sum" => some .sum | "reverse" => some .reverse
   | "head" => some .head | "tail" => some .tail | "exists" => some .exists_ | "empty" => some .empty_
   | "remove" => some .remove | "insert-before" => some .insertBefore
+  | "position" => some .position0 | "last" => some .last0 | "data" => some .data0
   | _ => none
 
 mutual
@@ -37,6 +38,8 @@ partial def parseE : List String → Option (Expr × List String)
   | "emp" :: r => some (.emp, r)
   | "var" :: n :: r => (nat? n).map fun v => (.var v, r)
   | "dot" :: r => some (.dot, r)
+  | "pos" :: r => some (.posE, r)
+  | "last" :: r => some (.lastE, r)
   | "add" :: r => bin .add r
   | "sub" :: r => bin .sub r
   | "mul" :: r => bin .mul r
